@@ -61,8 +61,16 @@ def cases(tier, seed):
                 lst.insert(rnd.randrange(len(lst) + 1), rnd.choice(lst))
             calls.append((rnd.choice(['scu', 'scu', 'scp']), lst))
             nxt = max(nxt, start + k)
+        calls2 = None
+        if rnd.random() < 0.35 and nxt < 100:
+            # the entity is reconfigured after its first association and asked again
+            calls2 = []
+            for _ in range(rnd.randint(1, 2)):
+                k = rnd.choice([1, 2, 5])
+                calls2.append((rnd.choice(['scu', 'scp', 'scp']), list(range(nxt, nxt + k))))
+                nxt += k
         yield dict(calls=calls, ts=rnd.randint(1, 3), maxlen=rnd.choice([0, 7, 128, 16384, 2 ** 32 - 1]),
-                   pattern=None, seed=seed * 100003 + i)
+                   pattern=None, seed=seed * 100003 + i, calls2=calls2)
 
 
 def run_case(case):
@@ -117,7 +125,7 @@ def run_case(case):
                     res.append((pcid, 0, tss[0]))
                 else:
                     res.append((pcid, code, tss[0] if rnd.random() < 0.5 else ''))
-            decided['results'] = res
+            decided.setdefault('results', res)
             return res
         world.serve_peer(ADDR, lambda sock: peers.ScriptedAcceptor(world.sim, sock, accept=accept,
                                                                     max_length=16384))
@@ -143,6 +151,46 @@ def run_case(case):
         t = world.spawn(user, 'user')
         world.run(tmax=400)
         world.drain(1.0)
+        if case.get('calls2') and len(configured) <= 100 and any(k == 'scp' for k, _ in
+                                                                  case['calls2']) <= need_scp:
+            # reconfigure, then a second association from the same entity: its request must
+            # reflect the configuration as it is NOW
+            configured2 = list(configured)
+            for kind, classes in case['calls2']:
+                if kind == 'scp' and not need_scp:
+                    kind = 'scu'
+                svc = make_service(kind, classes)
+                if kind == 'scu':
+                    ae.add_scu(svc)
+                else:
+                    ae.add_scp(svc)
+                for c in svc.sop_classes:
+                    if c not in configured2:
+                        configured2.append(c)
+            n_before = len(world.peers)
+            out2 = {}
+
+            def user2():
+                try:
+                    with ae.request_association({'aet': 'REMOTE_AE', 'address': ADDR[0],
+                                                 'port': ADDR[1]}):
+                        out2['ok'] = True
+                except Exception as e:  # pylint: disable=broad-except
+                    out2['exc'] = e
+            world.spawn(user2, 'user2')
+            world.run(tmax=400)
+            world.drain(1.0)
+            p2 = world.peers[n_before] if len(world.peers) > n_before else None
+            if p2 is None or p2.rq is None:
+                v('second-association-not-requested', repr(out2))
+            else:
+                abss2 = [c[1] for c in p2.rq['contexts']]
+                if sorted(abss2) != sorted(configured2):
+                    miss = sorted(set(configured2) - set(abss2))
+                    v('second-association-proposal-stale missing=%s extra=%s' % (
+                        bool(miss), bool(set(abss2) - set(configured2))),
+                      'configured now %d classes, second request proposes %d; missing %r' % (
+                          len(configured2), len(abss2), miss[:5]))
         peer = world.peers[0] if world.peers else None
         proposable = len(configured) <= 128
         dead = [x for x in world.sim.tasks if x.role == 'dul' and x.exc is not None]
